@@ -194,9 +194,9 @@ def run(ctx):
                 logm = fitcheck.grid_logm(conv, truth.apertures, theta, dist)
         # several planted sources per data file: the file is fitted by ONE fitter, source after source
         plants = []
-        for isrc in range(int(rng.integers(1, 5)) if not big else 3):
+        for isrc in range(int(rng.integers(1, 5)) if not big else 6):
             m0 = int(rng.choice(others))
-            if big and isrc < 2:
+            if big and isrc < 4:
                 m0 = [m_ for m_ in others if m_ >= n_m - 250][int(rng.integers(200))]
             a0 = float(rng.choice([lo, hi, rng.uniform(lo, hi), rng.uniform(lo, hi)]))
             if mode == '2d':
@@ -207,6 +207,8 @@ def run(ctx):
                 pred = np.asarray(logm[m0, j0], float) + a0 * k
                 s0 = float(np.log10(dist[j0]))
             e = float(rng.choice([0.0, 1e-3, 0.05, 0.3]))
+            if big and isrc < 4:
+                e = 0.0          # (exact plants among the last models of the big package: they are not to be lost to the degeneracy filter)
             if e == 0:
                 valid = np.array([4] * nf)
                 flux = pred.copy()
@@ -284,7 +286,7 @@ def run(ctx):
             ctx.rmdir(d)
             continue
         ctx.event('pipeline:run')
-        if big:
+        if big and any(p_['m0'] >= n_m - 250 for p_ in plants):          # (counted only when a plant among the last models was kept)
             BIG_DONE.append(True)
             ctx.regime('package:over-a-thousand-models')
         ctx.regime('mode:' + mode)
